@@ -18,6 +18,21 @@ from .ordertype import Inexact, World, worlds
 
 # ====================================================================================================== small AST helpers
 
+NORETURN = ('__assert_fail', '__assert_perror_fail', '__assert', 'abort', 'std::abort', 'std::terminate', 'exit', '_Exit', 'std::exit')
+
+
+def is_noreturn(fn, e):
+    """Element e is a call that does not return (failed assert, abort) or a throw: a path through it is not a normal path."""
+    if isinstance(e, tuple):
+        return False
+    n = fn.nodes.get(e)
+    if n is None:
+        return False
+    if n.get('k') == 'throw':
+        return True
+    return n.get('k') == 'call' and (n.get('q') or n.get('name') or '') in NORETURN
+
+
 def calls_of(fn, q=None, pred=None):
     out = []
     for n in fn.all_nodes():
@@ -219,7 +234,7 @@ def reach_under(fn, call_id, truth, is_target, extra_facts=None):
     elems = {e for b in fn.blocks.values() for e in b['elems']}
     if start not in elems:
         start = call_id
-    return path_search(fn, start, lambda e: is_target(e, facts), barrier, edge_filter(fn, facts)), facts
+    return path_search(fn, start, lambda e: is_target(e, facts), lambda e: barrier(e) or is_noreturn(fn, e), edge_filter(fn, facts)), facts
 
 
 def return_may_be_true(fn, e, facts):
@@ -318,6 +333,16 @@ def _var_fields(fb, idx, fn, d, record_q, depth, seen):
                 returned = True
     if returned:
         out |= _result_fields(fb, idx, fn, record_q, depth + 1, seen)
+    # ... or copies it into something else (`stats.x = local;`, `stats.x += local;`)
+    for n in fn.all_nodes():
+        if n.get('k') == 'assign' and n.get('op') in ('=', '+='):
+            r = fn.sn(n['rhs'])
+            hops = 0
+            while r is not None and r.get('k') == 'cast' and hops < 4:
+                r = fn.sn(r.get('sub'))
+                hops += 1
+            if r is not None and r.get('k') == 'var' and r.get('d') == d:
+                out |= stat_fields(fb, idx, fn, n['lhs'], record_q, depth + 1, seen)
     return out
 
 
@@ -755,6 +780,8 @@ class SymExec(object):
             return self.ev(g, args[0], env, depth)
         bodies = callee_bodies(self.fb, n)
         if not bodies:
+            if n.get('op') in ('*', '->') and n.get('recv') is not None and not [a for a in args if a is not None]:
+                return self.ev(g, n['recv'], env, depth)      # dereferencing an iterator / smart pointer: the object it stands for
             return UNK
         c = bodies[0]
         this = self.ev(g, n['recv'], env, depth) if n.get('recv') is not None else None
@@ -765,6 +792,32 @@ class SymExec(object):
         if c.cls and not c.static and not isinstance(this, Obj):
             return UNK
         return self.call(c, this, vals, depth + 1)
+
+
+def lazy_env(se, fn, base):
+    """Environment for evaluating expressions in the middle of fn: the variables of `base` are bound, every other local is
+    evaluated on demand from its initialiser (in the same environment)."""
+    memo = {}
+    env = dict(base)
+
+    def lazy(d):
+        if d in memo:
+            return memo[d]
+        ent = local_decl(fn, d)
+        memo[d] = UNK
+        if ent is not None and isinstance(ent[1].get('init'), int):
+            try:
+                memo[d] = se.ev(fn, ent[1]['init'], env)
+            except Unsupported:
+                memo[d] = UNK
+        return memo[d]
+    env['__lazy__'] = lazy
+    return env
+
+
+def pretty(text):
+    """Shorten the symbol names `<seg>.m_first.m_location.m_x` of a world description for reports."""
+    return text.replace('.m_location.m_', '.').replace('.m_first', '.first').replace('.m_second', '.second')
 
 
 def product_worlds(groups_syms, domain, prune=None):
